@@ -161,6 +161,7 @@ def avStr : AV → String
   | .aux i _ _ => s!"m:n{909 + i}"
   | .one v => "(l " ++ avStr v ++ ")"
   | .obj n => s!"m:n{n}"
+  | .objCopy _ => "m:?"
   | .host n g => s!"h:n{n}#{g}"
   | .found l s k =>
     if mods.isFn k then "fn"
@@ -276,6 +277,9 @@ def handle (line : String) : String :=
     (do pure (outStr (methodCall mods (← parseOpd a) (← k.nat?)))).getD "bad-request"
   | [.atom "accessassign", a, k] =>
     (do pure (outStr (accessAssign (← parseOpd a) (← k.nat?)))).getD "bad-request"
+  | [.atom "apicompound", .atom op, a, b] =>
+    (do pure (outStr (apiCompound (← arithTable.lookup op) (← parseOpd a) (← parseOpd b)))).getD "bad-request"
+  | [.atom "debugnested", a] => ((parseOpd a).map (fun o => outStr (debugNested o))).getD "bad-request"
   | [.atom "matchlast", a] => ((parseOpd a).map (fun o => outStr (matchLast o))).getD "bad-request"
   | [.atom "callpacked", a] => ((parseOpd a).map (fun o => outStr (callPacked o))).getD "bad-request"
   | [.atom "apiindexassign", a, i] =>
